@@ -175,9 +175,14 @@ func c20Exec(r *vf.Run, k c20Case) (keys, whats []string) {
 		pos := "none"
 		tk := ""
 		for _, f := range k.Fails {
-			if f.Msg == i {
+			if f.Msg == i && (pos == "none" || f.Pos != "RSET") {
 				pos = f.Pos
 				tk = c20TextNames[f.Text]
+			}
+		}
+		for _, f := range k.Fails {
+			if f.Msg == i && f.Pos == "RSET" && pos != "RSET" {
+				pos += "+RSET-refused"
 			}
 		}
 		cls := fmt.Sprintf("%dyz", e.code/100)
